@@ -218,6 +218,32 @@ func c03Scenarios(tier string) []*world.Scenario {
 		sc.ReuseFds = true
 		out = append(out, sc)
 	}
+	// (h) a connection dies inside a message (node killed mid-reply / client gone mid-request): whatever it leaves behind
+	// in pooled buffers must not surface in the next connection's stream (the following reply / request arrives cut)
+	for _, kind := range []string{"backend-close", "backend-rst"} {
+		for _, cut := range []int{1, 3, 7} {
+			sc := BackendLossMidReply(kind, cut, 2)
+			sc.Name = fmt.Sprintf("C03/backend-loss-mid-reply/%s/cut%d/d2", kind, cut)
+			sc.Family = "connection-died-mid-message"
+			sc.Check = c03Check("reconnect")
+			out = append(out, sc)
+		}
+	}
+	{
+		ab := world.Cmd("set", keysA[0], strings.Repeat("A", 34))
+		victim := []Req{GetReq(keysB[2]), SetReq(keysC[2], "hello")}
+		for _, plen := range []int{9, len(ab) - 1} {
+			for _, rst := range []bool{false, true} {
+				for _, cut := range []int{4, 13, 30} {
+					sc := AbortedNeighbour(ab[:plen], rst, victim, []int{cut}, 32)
+					sc.Name = fmt.Sprintf("C03/aborted-neighbour/prefix%d/rst=%v/cut%d", plen, rst, cut)
+					sc.Family = "connection-died-mid-message"
+					sc.Check = c03Check("client-close")
+					out = append(out, sc)
+				}
+			}
+		}
+	}
 	// (f) backend connections that start with a handshake (AUTH and/or READONLY): the handshake replies under every
 	// segmentation with <= 2 cuts; none of them may surface as the reply to a client's request
 	for mask := 0; mask < 512; mask++ {
@@ -359,6 +385,16 @@ func c15Scenarios(tier string) []*world.Scenario {
 		follow(&cs1, keysA[7])
 		add(fmt.Sprintf("%s/2clients", n), "backend-close", "inflight-lost-on-backend-close",
 			&world.Scenario{Nodes: T3m(), Bound: b, Clients: []world.ClientSpec{cs0, cs1}, Faults: []world.Fault{{Kind: "backend-close", Addr: AddrA, AfterW: 1}}})
+	}
+	// the node dies INSIDE a reply; the request is answered with an error, the next request dials a new connection and its
+	// reply arrives in pieces: it must be answered (state left by the dead connection must not stall the new one)
+	for _, kind := range []string{"backend-close", "backend-rst"} {
+		for _, cut := range []int{1, 3, 7} {
+			sc := BackendLossMidReply(kind, cut, b)
+			cs := &sc.Clients[0]
+			follow(cs, keysA[6])
+			add(fmt.Sprintf("loss-mid-reply/%s/cut%d", kind, cut), "backend-close-mid-reply", "lost-on-partial-reply-close", sc)
+		}
 	}
 	// redirect naming a node the proxy does not know
 	for _, n := range []string{"get", "mget-split", "get-get"} {
@@ -1191,11 +1227,29 @@ func c20Reparent() []*world.Scenario {
 		world.NodeSpec{Name: "a1", Addr: AddrA1, Master: "aaa"},
 		world.NodeSpec{Name: "a2", Addr: AddrA2, Master: "bbb"},
 		world.NodeSpec{Name: "b1", Addr: AddrB1, Master: "bbb"})
-	for _, target := range []string{"new-master-slot", "old-master-slot"} {
-		key, want := keysB[0], []string{AddrA2, AddrB1}
-		if target == "old-master-slot" {
-			key, want = keysA[0], []string{AddrA1}
-		}
+	// a manual failover: replica a1 and master A swap roles (both keep their pools, whose role flips); a2 follows a1
+	swapped := []world.NodeSpec{
+		{Name: "a1", Addr: AddrA1, Slots: [][2]int{{0, 5460}}},
+		{Name: "bbb", Addr: AddrB, Slots: [][2]int{{5461, 10922}}},
+		{Name: "ccc", Addr: AddrC, Slots: [][2]int{{10923, 16383}}},
+		{Name: "aaa", Addr: AddrA, Master: "a1"},
+		{Name: "a2", Addr: AddrA2, Master: "a1"},
+		{Name: "b1", Addr: AddrB1, Master: "bbb"}}
+	type tc struct {
+		target   string
+		after    []world.NodeSpec
+		key      string
+		want     []string
+		masterOK string
+		what     string
+	}
+	for _, c := range []tc{
+		{"new-master-slot", after, keysB[0], []string{AddrA2, AddrB1}, AddrB, "replica " + AddrA2 + " moved from master A to master B"},
+		{"old-master-slot", after, keysA[0], []string{AddrA1}, AddrA, "replica " + AddrA2 + " moved from master A to master B"},
+		{"role-swap", swapped, keysA[0], []string{AddrA, AddrA2}, AddrA1, "master A and its replica " + AddrA1 + " swapped roles"},
+	} {
+		target, after, key, want := c.target, c.after, c.key, c.want
+		what := c.what
 		sc := &world.Scenario{Nodes: before, Bound: 0, FreeKinds: []string{"intn"}, IntnChoice: true, Horizon: 300, Family: "reparent",
 			Faults: []world.Fault{{Kind: "topo", Nodes: after}}, Ticks: []time.Duration{1100 * time.Millisecond}}
 		sc.TickGate = func(w *world.World) bool { return w.FaultsDone() }
@@ -1206,12 +1260,16 @@ func c20Reparent() []*world.Scenario {
 		}
 		sc.Clients = []world.ClientSpec{cs}
 		sc.Name = "C20/reparent/" + target
-		masterOK := AddrB
-		if target == "old-master-slot" {
-			masterOK = AddrA
+		masterOK := c.masterOK
+		if target == "role-swap" {
+			// a write after the swap goes to the new master and is served
+			wr := SetReq(keysA[1], "v")
+			cs.Chunks = append(cs.Chunks, world.Chunk{Data: wr.Bytes, WaitTicks: 1, WaitReplies: 3})
+			cs.Reqs = append(cs.Reqs, wr.Bytes)
+			cs.Expect = append(cs.Expect, wr.Expect)
+			sc.Clients = []world.ClientSpec{cs}
 		}
 		k := key
-		target := target
 		w0 := append([]string{}, want...)
 		sc.Observe = func(w *world.World) string {
 			set := map[string]bool{}
@@ -1256,7 +1314,7 @@ func c20Reparent() []*world.Scenario {
 			}
 			sort.Strings(extra)
 			if len(missing) > 0 || len(extra) > 0 {
-				return []world.Violation{{Sig: "healthy-replica-unreachable", Msg: fmt.Sprintf("after replica %s moved from master A to master B, reads of a %s are served by %v over all random outcomes; expected exactly %v (never selected: %v, wrongly selected: %v)", AddrA2, target, obs, w0, missing, extra)}}
+				return []world.Violation{{Sig: "healthy-replica-unreachable", Msg: fmt.Sprintf("after %s, reads of a %s are served by %v over all random outcomes; expected exactly %v (never selected: %v, wrongly selected: %v)", what, target, obs, w0, missing, extra)}}
 			}
 			return nil
 		}
